@@ -67,7 +67,7 @@ CATALOGUE = [
 FILES_EXTRA = {'inc18.asm': 'inc18: .byte $5A\n    nop\n'}
 HEADER = [('lab', None, [], False), (None, 'nop', [], True)]
 FOOTER = [('nop_x', 'nop', [], True)]
-CONSTS = 'A1 = 3\n'
+CONSTS = 'A1 = 3\nkv = 5\nKV = 6\n'
 
 VARIANTS = {
     'mnemonic-case': [1, 2],
@@ -202,9 +202,19 @@ PREPROC_PROGRAMS = [
 ]
 
 
+# programs in which two statements differ only in the letter case of a label or of a character literal (both case sensitive):
+# each statement is assembled from its own text, however the other one is written
+TWIN_PROGRAMS = [
+    [('lab', None, [], False), (None, 'jmp', ['done'], True), (None, 'jmp', ['Done'], True), (None, 'ldi', [('reg', 'a'), "'A'"], True),
+     (None, 'ldi', [('reg', 'a'), "'a'"], True), ('done', 'nop', [], True), ('Done', 'push', [('reg', 'a')], True), ('nop_x', 'nop', [], True)],
+    [('lab', None, [], False), (None, 'ldi', [('reg', 'b'), 'kv'], True), (None, 'ldi', [('reg', 'b'), 'KV'], True), (None, 'brr', ['lab'], True),
+     ('Lab', 'brr', ['Lab'], True), (None, '.byte', ["'q'", 'kv'], False), (None, '.byte', ["'Q'", 'KV'], False), ('nop_x', 'nop', [], True)],
+]
+
+
 def programs(tier):
     q = tier == 'quick'
-    progs = [list(p) for p in SCOPE_PROGRAMS] + [list(p) for p in PREPROC_PROGRAMS]
+    progs = [list(p) for p in SCOPE_PROGRAMS] + [list(p) for p in PREPROC_PROGRAMS] + [list(p) for p in TWIN_PROGRAMS]
     for s in CATALOGUE:
         progs.append(HEADER + [s] + FOOTER)
     pairs = list(itertools.product(CATALOGUE, repeat=2))
@@ -221,7 +231,7 @@ def programs(tier):
 def meta(tier):
     q = tier == 'quick'
     return {
-        'rule': 'base programs: header + every single statement and every ordered pair (thorough: triples of the first 10) of a '
+        'rule': 'base programs (plus programs about local regions, preprocessor lines, and statements that differ only in the letter case of a label or character literal): header + every single statement and every ordered pair (thorough: triples of the first 10) of a '
                 '26-statement catalogue (every instruction form of the probe ISA, data lines, labelled statements, an #include, .org, .align and #define line, operands that look '
                 'like mnemonics or registers: label nop_x, constant A1) + footer; rewrites: for each kind (mnemonic case, register case, '
                 'token separator, comma spacing, bracket padding, indentation, blank lines, comments incl. ones containing a mnemonic '
